@@ -34,6 +34,12 @@ CHECKS = {
     text="Search, not proof: 0.9k (quick) to 30k (thorough) live sessions with loop counts up to 1e7 (decode times beyond 2^32 ticks), every timeline checked for gaps over its whole length.",
     note=SHIMS + ". Box reader vt/isobox.py shares no code with dashlive. One open known finding (C02-K1, drift correction advertised but not present in the samples).",
     design_ref="DESIGN.md section 4, C02"),
+ "C08": dict(
+    engine="enumeration + hypothesis",
+    technique="every clause of the statement asserted on DashTiming for enumerated day/month/year boundary seconds and Hypothesis-generated (now, start, depth, mup, reference) tuples, with metamorphic now -> now+delta pairs for the monotonicity clauses; rendered MPD attributes confirmed over HTTP",
+    text="Search, not proof. Exhaustive over 121+1 seconds x 2 sub-second phases x 39 boundary days x 5 symbolic starts x 4 mup x 3 depths (quick and thorough alike); 50k (quick) to 3M (thorough) generated tuples over 1971-2100 with half of the mass near day/month/year boundaries; 0.8k-40k rendered manifests.",
+    note="Options are parsed by the server's own option parser (accepted domain). python datetime trusted. " + SHIMS,
+    design_ref="DESIGN.md section 4, C08"),
 }
 
 _PENDING = "check under construction in this build round; not yet registered (see DESIGN.md section 9)"
